@@ -154,6 +154,8 @@ def run(prog, chk, tier):
         chk.ob("writer-bounds", "%s::write_into_unchecked: every index/copy precondition holds given dest.len() >= padded_len()" % nm, not bad,
                where=(bad[0].span if bad else None), detail="; ".join("%s %s" % (o.kind, o.why) for o in bad[:2]), how="E2 obligations (%d)" % len(it.obligations))
     guarded_attribute_writer(prog, chk, ws)
+    two_writers(prog, chk, ws)
+    raw_serialiser(prog, chk)
     builder(prog, chk)
 
 
@@ -274,3 +276,313 @@ def builder(prog, chk):
            detail=repr(adapt), how="callee identity")
     cl = [i for i in prog.impls if i["trait"] == "std::clone::Clone" and i["self_s"].startswith("stun_types::message::MessageBuilder")]
     chk.ob("copies", "MessageBuilder: Clone is implemented (derived field-wise clone is checked by C11 who-may-write)", len(cl) == 1, how="impl table")
+
+
+# ------------------------------------------------------------------------------------------------ the two writers agree
+
+def seg_equal(st, a, b):
+    """are two normalised pieces the same bytes in this state (None: cannot tell)"""
+    if a[0] == "?" or b[0] == "?":
+        return None
+    if any(x[0] == "win" and str(x[1]).startswith(("orig:", "unknown")) for x in (a, b)):
+        return None      # bytes the analysis lost track of (joins of diverging loop iterations keep only the shared history)
+    if a[0] != b[0]:
+        if {a[0], b[0]} == {"le", "be"}:
+            return False         # a little-endian number against a big-endian one: different bytes for some value
+        return False if {a[0], b[0]} <= {"win", "zero"} else None
+    if a[0] == "win":
+        if a[1] != b[1]:
+            return None if (str(a[1]).startswith("unknown") or str(b[1]).startswith("unknown")) else False
+        return st.sys.entails_eq(a[2] - b[2]) and st.sys.entails_eq(a[3] - b[3])
+    if a[0] == "be":
+        if a[1] != b[1]:
+            return None
+        if a[2] is None or b[2] is None:
+            return None
+        return st.sys.entails_eq(a[2] - b[2])
+    if a[0] == "zero":
+        return st.sys.entails_eq(a[1] - b[1])
+    return None
+
+
+def split_be(segs):
+    """big-endian numbers with a constant value as single bytes, so that be16(1) ++ be16(0) and be32(65536) compare equal"""
+    out = []
+    for s_ in segs:
+        if s_[0] == "be" and s_[2] is not None and s_[2].is_const() and s_[1] > 1:
+            v = int(s_[2].c)
+            for k in range(s_[1]):
+                out.append(("be", 1, Lin.const((v >> (8 * (s_[1] - 1 - k))) & 0xFF)))
+        elif s_[0] == "zero" and s_[1].is_const() and 0 < int(s_[1].c) <= 64:
+            out += [("be", 1, Lin.const(0))] * int(s_[1].c)
+        else:
+            out.append(s_)
+    return out
+
+
+def two_writers(prog, chk, ws):
+    """`write_into_unchecked(dest)` against `to_raw()` serialised by the raw attribute's own writer, on the same symbolic value:
+    the type field, the length field (= the length of the raw value) and the value bytes are the same bytes, described by where
+    they come from (a field's bytes, the big-endian bytes of a numeric field, a constant)"""
+    from absint.models_content import content_segments, show_segments, use_registry, cell_view_id
+    from rules.agent_e2 import Run, data_bytes
+    decided, undecided = [], []
+    for self_s, key in ws:
+        nm = self_s.split("::")[-1].split("<")[0]
+        body = prog.bodies[key]
+        tk = None
+        for path, i in prog.trait_method_impls(A + "AttributeWrite", "to_raw"):
+            if i["self_s"] == self_s:
+                tk = path
+        if tk is None or tk not in prog.bodies:
+            chk.fail("two-writers", "%s: to_raw not found" % nm)
+            continue
+
+        def setup(run, st, tk=tk, body=body, self_s=self_s):
+            it = run.it
+            dc = it.cell_of(run.fr, 2)
+            dv = st.cells.get(dc)
+            ln = dv.len if isinstance(dv, Seq) else it.fresh_num(st, 0, None, "destlen").e
+            st.cells["outbuf:dest"] = Seq(ln, None, None, None, ("orig:dest", Lin.const(0)))
+            st.cells[dc] = Seq(ln, None, None, (cell_view_id(it, "outbuf:dest", ()), Lin.const(0)), None)
+            selfv = st.cells[it.cell_of(run.fr, 1)]
+            # the property's in-limit assumption
+            tgt = st.cells.get(selfv.cell) if isinstance(selfv, Ref) else selfv
+            seqs = []
+            all_leaf_seqs(tgt, seqs)
+            lim = IN_LIMIT_ELEMS.get(self_s.split("::")[-1].split("<")[0], IN_LIMIT)
+            for q in seqs:
+                if not q.len.is_const():
+                    st.sys.add_ge(Lin.const(lim) - q.len)
+            outs = []
+            for s1, raw in it.call_local(st, run.fr, 9100, tk, [selfv], {"span": body.span}):
+                s1.cells["ghost:raw"] = raw
+                outs.append(s1)
+            it.obligations.clear()
+            return outs
+        r = Run(prog, key, track_content=True, bool_vars=False, path_sensitive=False, setup=setup, max_parts=400)
+        if r.error or not r.results:
+            undecided.append("%s (analysis: %s)" % (nm, r.error or "no return state"))
+            continue
+        use_registry(r.it)
+        verdicts = []
+        for st, ret in r.results:
+            raw = st.cells.get("ghost:raw")
+            buf = st.cells.get("outbuf:dest")
+            W = content_segments(st, buf) if isinstance(buf, Seq) else None
+            if not isinstance(raw, Struct) or W is None:
+                verdicts.append((None, "no raw value / unknown buffer"))
+                continue
+            hdr = raw.get(0)
+            ty = hdr.get(0).get(0) if isinstance(hdr, Struct) and isinstance(hdr.get(0), Struct) else None
+            ln = hdr.get(1) if isinstance(hdr, Struct) else None
+            vb = data_bytes(raw.get(1))
+            V = content_segments(st, vb) if isinstance(vb, Seq) else None
+            if not isinstance(ty, Num) or not isinstance(ln, Num) or not isinstance(vb, Seq):
+                verdicts.append((None, "raw attribute not understood"))
+                continue
+            if V is None and st.sys.entails_eq(vb.len):
+                V = []
+            # declared length of the raw form = length of its value (for RawAttribute itself this is the constructors' business)
+            if nm != "RawAttribute" and not st.sys.entails_eq(ln.e - vb.len):
+                verdicts.append((False, "to_raw(): header length %r is not the value length %r" % (st.sys.reduce(ln.e), st.sys.reduce(vb.len))))
+                continue
+            want = [("be", 2, ty.e), ("be", 2, ln.e)] + (V if V is not None else [("?",)])
+            W2, want2 = split_be(W), split_be(want)
+            verdict, why = True, None
+            for i, wpiece in enumerate(want2):
+                if i >= len(W2):
+                    verdict, why = None, "the in-place writer's bytes end early"
+                    break
+                e = seg_equal(st, W2[i], wpiece)
+                if e is not True:
+                    # a zero-length value piece against the padding / the untouched rest
+                    verdict = e
+                    why = "piece %d: in place %s, via to_raw %s" % (i, show_segments([W2[i]]), show_segments([wpiece]))
+                    break
+            verdicts.append((verdict, why))
+        where = body.loc()
+        if any(v is False for v, _ in verdicts):
+            why = "; ".join(w for v, w in verdicts if v is False)
+            chk.ob("two-writers", "%s: write_into_unchecked and to_raw() + serialise give the same type, length and value bytes" % nm, False, where, detail=why,
+                   how="E2 content of the output buffer vs the raw form, same symbolic value")
+            decided.append(nm)
+        elif all(v is True for v, _ in verdicts):
+            chk.ob("two-writers", "%s: write_into_unchecked and to_raw() + serialise give the same type, length and value bytes" % nm, True, where,
+                   how="E2 content of the output buffer vs the raw form, same symbolic value (%d return states)" % len(verdicts))
+            decided.append(nm)
+        else:
+            undecided.append("%s (%s)" % (nm, "; ".join(w for v, w in verdicts if v is None and w)[:200]))
+    chk.analysed["two_writers_decided"] = decided
+    chk.analysed["two_writers_undecided"] = undecided
+    chk.floor("two-writers-decided", len(decided), 10)
+
+
+def entails_ge_int(st, e):
+    """e >= 0 over the integers: entailed, or e >= -1 is entailed and e = -1 contradicts a disequality the path decided"""
+    if st.sys.entails_ge(e):
+        return True
+    if not st.sys.entails_ge(e + 1):
+        return False
+    s2 = st.sys.copy()
+    s2.add_eq(e + 1)
+    s2._check_neqs()
+    return s2.bottom or not s2.feasible()
+
+
+def raw_serialiser(prog, chk):
+    """RawAttribute::to_bytes() is type ++ declared length ++ the whole value ++ zero padding up to padded_len(); the raw
+    constructors declare exactly the length of the value they are given (in-limit) and keep its bytes"""
+    from absint.models_content import content_segments, show_segments, use_registry
+    from rules.agent_e2 import Run, data_bytes
+    RA = A + "RawAttribute::<'a>::"
+    key = RA + "to_bytes"
+    body = prog.bodies.get(key)
+    if body is None:
+        chk.fail("raw-serialiser", "RawAttribute::to_bytes not found")
+        return
+    pk = mono_key(prog, "<A as " + A + "AttributeExt>::padded_len", A + "RawAttribute<'a>")
+
+    def setup(run, st):
+        it = run.it
+        selfv = st.cells[it.cell_of(run.fr, 1)]
+        outs = []
+        assume_raw_invariant(st, st.cells.get(selfv.cell) if isinstance(selfv, Ref) else selfv)
+        if pk is None:
+            return None
+        for s1, P in it.call_local(st, run.fr, 9200, pk, [selfv], {"span": body.span}):
+            s1.cells["ghost:P"] = P
+            outs.append(s1)
+        it.obligations.clear()
+        return outs
+    r = Run(prog, key, track_content=True, bool_vars=False, path_sensitive=False, setup=setup, max_parts=400)
+    if r.error or not r.results:
+        chk.fail("raw-serialiser", "RawAttribute::to_bytes|analysis", body.loc(), r.error or "no return state")
+    else:
+        use_registry(r.it)
+        n = 0
+        for st, ret in r.results:
+            me = r.self_before(st)
+            hdr = me.get(0) if isinstance(me, Struct) else None
+            ty = hdr.get(0).get(0) if isinstance(hdr, Struct) and isinstance(hdr.get(0), Struct) else None
+            ln = hdr.get(1) if isinstance(hdr, Struct) else None
+            vb = data_bytes(me.get(1)) if isinstance(me, Struct) else None
+            segs = content_segments(st, ret) if isinstance(ret, Seq) else None
+            P = st.cells.get("ghost:P")
+            ok = False
+            why = show_segments(segs)
+            if segs is not None and len(segs) >= 2 and isinstance(ty, Num) and isinstance(ln, Num) and isinstance(vb, Seq) and isinstance(ret, Seq):
+                V = content_segments(st, vb) or []
+                want = [("be", 2, ty.e), ("be", 2, ln.e)] + V
+                got = list(segs)
+                ok = len(got) >= len(want) and all(seg_equal(st, got[i], want[i]) is True for i in range(len(want)))
+                rest = got[len(want):]
+                ok = ok and all(x[0] == "zero" for x in rest)
+                ok = ok and (V != [] or st.sys.entails_eq(vb.len))
+                # the total is a multiple of four, with fewer than four padding bytes
+                red = st.sys.reduce(ret.len)
+                mult4 = all(int(cf) % 4 == 0 for cf in red.t.values()) and int(red.c) % 4 == 0
+                tight = st.sys.entails_ge(ret.len - vb.len - 4) and entails_ge_int(st, vb.len + 7 - ret.len)
+                if not (mult4 and tight):
+                    why += "; total length %r is not shown to be the value padded to a multiple of four" % (red,)
+                ok = ok and mult4 and tight
+            n += 1
+            chk.ob("raw-serialiser", "RawAttribute::to_bytes = type ++ declared length ++ value ++ zero padding up to the next multiple of four", ok, body.loc(),
+                   detail=why[:300], how="E2 content of the returned vector")
+        chk.floor("raw-serialiser-return-states", n, 1)
+    raw_constructors(prog, chk)
+
+
+def assume_raw_invariant(st, raw):
+    """a RawAttribute declares the length of its value (established by every site that constructs one: rule raw-constructors)"""
+    from rules.agent_e2 import data_bytes
+    if not isinstance(raw, Struct):
+        return
+    hdr = raw.get(0)
+    ln = hdr.get(1) if isinstance(hdr, Struct) else None
+    d = raw.get(1)
+    vs = []
+    if isinstance(d, Enum):
+        for vi in d.v.values():
+            vs.append(data_bytes(vi))
+    else:
+        vs.append(data_bytes(d))
+    if isinstance(ln, Num) and len(vs) >= 1:
+        # all variants of the value share one length here: tie each to the declared length
+        for vb in vs:
+            if isinstance(vb, Seq):
+                st.sys.add_eq(ln.e - vb.len)
+
+
+def raw_constructors(prog, chk):
+    from absint.models_content import content_segments, use_registry
+    from rules.agent_e2 import Run, data_bytes
+    RA = A + "RawAttribute"
+    sites = sorted({s_["body"] for s_ in e1.construct_sites(prog, RA)})
+    chk.floor("raw-attribute-construction-sites", len(sites), 3)
+    for k2 in sites:
+        b2 = prog.bodies.get(k2)
+        fn = k2.rsplit("::", 1)[-1]
+        if b2 is None:
+            chk.fail("raw-constructors", "%s not found" % k2)
+            continue
+
+        def setup2(run, st, b2=b2):
+            for i in range(1, b2.arg_count + 1):
+                av = st.cells.get(run.it.cell_of(run.fr, i))
+                tgt = st.cells.get(av.cell) if isinstance(av, Ref) and not av.path else av
+                if isinstance(tgt, Struct) and isinstance(tgt.get(0), Struct) and isinstance(tgt.get(1), Enum):
+                    assume_raw_invariant(st, tgt)         # an existing raw attribute (clone / into_owned)
+                    st.cells["ghost:arg_raw"] = tgt
+                elif fn in ("new", "new_owned"):
+                    seqs = []
+                    all_leaf_seqs(tgt, seqs)
+                    for q in seqs:
+                        if not q.len.is_const():
+                            st.sys.add_ge(Lin.const(IN_LIMIT) - q.len)      # the property's in-limit assumption
+                    if seqs:
+                        st.cells["ghost:arg_data"] = tgt
+                    elif i == 1:
+                        st.cells["ghost:arg_type"] = tgt
+        r2 = Run(prog, k2, track_content=True, bool_vars=False, path_sensitive=False, setup=setup2, max_parts=400)
+        if r2.error or not r2.results:
+            chk.fail("raw-constructors", "%s|analysis" % fn, b2.loc(), r2.error or "no return state")
+            continue
+        use_registry(r2.it)
+        n = 0
+        for st, ret in r2.results:
+            if isinstance(ret, Enum):
+                if ret.adt.endswith("Result") and set(ret.v) == {1}:
+                    continue           # a refusal constructs nothing
+                ret = ret.v[0].get(0) if ret.adt.endswith("Result") and set(ret.v) == {0} else ret
+            hdr = ret.get(0) if isinstance(ret, Struct) else None
+            ty = hdr.get(0).get(0) if isinstance(hdr, Struct) and isinstance(hdr.get(0), Struct) else None
+            ln = hdr.get(1) if isinstance(hdr, Struct) else None
+            vb = data_bytes(ret.get(1)) if isinstance(ret, Struct) else None
+            ok = isinstance(ln, Num) and isinstance(vb, Seq) and st.sys.entails_eq(ln.e - vb.len)
+            what = "the declared length is the length of the value"
+            dv = st.cells.get("ghost:arg_data")
+            if ok and dv is not None:
+                dv = data_bytes(dv)
+                at = st.cells.get("ghost:arg_type")
+                at = at.get(0) if isinstance(at, Struct) else at
+                a_, b_ = content_segments(st, vb), content_segments(st, dv) if isinstance(dv, Seq) else None
+                ok = isinstance(ty, Num) and isinstance(at, Num) and st.sys.entails_eq(ty.e - at.e) and isinstance(dv, Seq) and st.sys.entails_eq(vb.len - dv.len) \
+                    and a_ is not None and b_ is not None and len(a_) == len(b_) and all(seg_equal(st, x, y) is True for x, y in zip(a_, b_))
+                what += ", type and value bytes are the ones given"
+            old_ = st.cells.get("ghost:arg_raw")
+            if ok and isinstance(old_, Struct):
+                oh = old_.get(0)
+                ot = oh.get(0).get(0) if isinstance(oh, Struct) and isinstance(oh.get(0), Struct) else None
+                ov = [data_bytes(x) for x in old_.get(1).v.values()] if isinstance(old_.get(1), Enum) else [data_bytes(old_.get(1))]
+                a_ = content_segments(st, vb)
+                same = False
+                for o_ in ov:
+                    b_ = content_segments(st, o_) if isinstance(o_, Seq) else None
+                    if a_ is not None and b_ is not None and len(a_) == len(b_) and all(seg_equal(st, x, y) is True for x, y in zip(a_, b_)):
+                        same = True
+                ok = isinstance(ty, Num) and isinstance(ot, Num) and st.sys.entails_eq(ty.e - ot.e) and same
+                what += ", type and value bytes are those of the original"
+            n += 1
+            chk.ob("raw-constructors", "RawAttribute %s: %s" % (fn, what), ok, b2.loc(), detail=repr(ret)[:240], how="E2 return state (content tracking)")
+        chk.ob("raw-constructors", "RawAttribute %s was analysed to a constructing return" % fn, n >= 1, b2.loc())
